@@ -9,6 +9,7 @@
 import GIV.Lemmas.FsxFS
 import GIV.Lemmas.FsxSave
 import GIV.Lemmas.FsxCleanBytes
+import GIV.Lemmas.FsxMore
 
 namespace GIV.C15
 open GIV GIV.Txtar GIV.Fsx
@@ -422,5 +423,179 @@ example : (saveDirBytes ⟨false, true⟩ exTree).bind (fun b => extract b [[111
                  ([[111], [97]], .file [62, 45, 45, 32, 120, 32, 45, 45, 10]),
                  ([[111], [97]], .file []),
                  ([[111]], .dir)]) := by decide +kernel
+
+/-! ### failing runs, duplicates, skipped files -/
+
+/-- **write_changes_beneath.** Every path at which the file system differs after `Write` — successful or not,
+for every archive (names with "..", empty elements, ".", absolute names included) and every pre-existing tree —
+did not exist before and lies strictly beneath `dir`, or is `dir` / an ancestor of `dir` created as a directory. -/
+theorem write_changes_beneath (a : Archive) (dir : Path) (fs : FS) (q : Path)
+    (hdiff : (writeArchive a dir fs).2.get q ≠ fs.get q) :
+    fs.get q = none ∧ ∃ n, (writeArchive a dir fs).2.get q = some n ∧
+      ((dir <+: q ∧ q ≠ dir) ∨ (n = .dir ∧ q <+: dir)) := by
+  cases hq : fs.get q with
+  | some n => exact absurd ((write_no_overwrite a dir fs q n hq).trans hq.symm) hdiff
+  | none =>
+    refine ⟨rfl, ?_⟩
+    cases ha : (writeArchive a dir fs).2.get q with
+    | none => rw [ha, hq] at hdiff; exact absurd rfl hdiff
+    | some n => exact ⟨n, rfl, write_contained a dir fs q n hq ha⟩
+
+example : (writeArchive ⟨[], [⟨[97, 47, 46, 47, 47, 98], [120]⟩]⟩ [[100]] []).2.get [[100], [97], [98]] ≠
+    FS.get [] [[100], [97], [98]] := by decide
+
+/-- **write_fail_prefix.** When `Write` returns an error `e`, the archive's entries split as `pre ++ f :: post`:
+all of `pre` were written without error, `f`'s own step returned `e`, and the state `Write` leaves is the state
+that step leaves.  In that state every entry of `pre` is in place with exactly its data; every regular file that was
+not there before is the file of an entry of `pre` (so neither the failing entry nor any entry after it created a
+file; the failing entry can only have added directories on the way to its target); and everything that existed
+before is unchanged. -/
+theorem write_fail_prefix (a : Archive) (dir : Path) (fs : FS) (e : Err) (h : (writeArchive a dir fs).1 = some e) :
+    ∃ pre f post, a.files = pre ++ f :: post ∧ (writeFiles dir fs pre).1 = none ∧
+      writeOne dir (writeFiles dir fs pre).2 f = (some e, (writeArchive a dir fs).2) ∧
+      (∀ g ∈ pre, (writeArchive a dir fs).2.get (joinPath dir (cleanPath g.name)) = some (.file g.data)) ∧
+      (∀ q d, fs.get q = none → (writeArchive a dir fs).2.get q = some (.file d) →
+        ∃ g ∈ pre, q = joinPath dir (cleanPath g.name) ∧ d = g.data) ∧
+      (∀ q n, fs.get q = some n → (writeArchive a dir fs).2.get q = some n) := by
+  obtain ⟨pre, f, post, hsplit, hpre, hone⟩ := writeFiles_fail_split dir fs a.files e h
+  have hfail : (writeOne dir (writeFiles dir fs pre).2 f).1 = some e := by rw [hone]
+  have hstep := writeOne_fail_dirs dir (writeFiles dir fs pre).2 f e hfail
+  have hsnd : (writeOne dir (writeFiles dir fs pre).2 f).2 = (writeArchive a dir fs).2 := by rw [hone]; rfl
+  rw [hsnd] at hstep
+  refine ⟨pre, f, post, hsplit, hpre, hone, ?_, ?_, fun q n hq => write_no_overwrite a dir fs q n hq⟩
+  · intro g hg
+    exact hstep.1 _ _ (writeFiles_contents dir fs pre hpre g hg)
+  · intro q d hq hafter
+    have hnew := writeFiles_new dir fs pre
+    cases hp : (writeFiles dir fs pre).2.get q with
+    | none =>
+      have := (hstep.2 q _ hp hafter).1
+      cases this
+    | some m =>
+      have hm := hstep.1 q m hp
+      rw [hafter] at hm
+      cases hm
+      rcases hnew.2 q _ hq hp with hd | ⟨g, hg, hqe, hde⟩
+      · cases hd
+      · exact ⟨g, hg, hqe, by cases hde; rfl⟩
+
+-- "a" written, "b" collides with an existing file: error EEXIST, "a" is in place, "c" was never tried
+example : writeArchive ⟨[], [⟨[97], [120]⟩, ⟨[98], [121]⟩, ⟨[99], [122]⟩]⟩ [[100]] [([[100]], .dir), ([[100], [98]], .file [111])] =
+    (some .exists, [([[100], [97]], .file [120]), ([[100], [97]], .file []), ([[100]], .dir), ([[100], [98]], .file [111])]) := by
+  decide
+
+/-- **write_escape_stops.** The error for an escaping name is reported before anything of that entry is created:
+if the entries before it were written without error, `Write` returns "outside parent directory" and the file
+system is exactly the one the preceding entries left — for every name that is absolute or climbs out through "..". -/
+theorem write_escape_stops (comment : Bytes) (pre post : List File) (f : File) (dir : Path) (fs : FS)
+    (hesc : Gen.Fsx.isAbs f.name = true ∨ climbsOut f.name = true) (hpre : (writeFiles dir fs pre).1 = none) :
+    writeArchive ⟨comment, pre ++ f :: post⟩ dir fs = (some .outside, (writeFiles dir fs pre).2) := by
+  show writeFiles dir fs (pre ++ f :: post) = _
+  rw [writeFiles_append_ok _ hpre]
+  exact writeFiles_cons_fail post (write_rejects_entry dir _ f ((escapes_iff_climbs f.name).mpr hesc))
+
+example : writeArchive ⟨[], [⟨[97], [120]⟩, ⟨[98, 47, 46, 46, 47, 46, 46, 47, 99], [121]⟩, ⟨[99], [122]⟩]⟩ [[100]] [] =
+    (some .outside, (writeFiles [[100]] [] [⟨[97], [120]⟩]).2) :=
+  write_escape_stops [] [⟨[97], [120]⟩] [⟨[99], [122]⟩] ⟨[98, 47, 46, 46, 47, 46, 46, 47, 99], [121]⟩ [[100]] []
+    (Or.inr (by decide)) (by decide)
+
+/-- **write_duplicate.** Two entries whose names clean to the same path (`a/b`, `a//b`, `./a/x/../b`, …): if `Write`
+gets past the first one and everything between them, the second occurrence fails with EEXIST ("file exists"),
+`Write` returns that error leaving the file system as it was at that point, and the file holds the FIRST entry's
+data. -/
+theorem write_duplicate (comment : Bytes) (pre mid post : List File) (f1 f2 : File) (dir : Path) (fs : FS)
+    (hsame : cleanPath f1.name = cleanPath f2.name)
+    (hok : (writeFiles dir fs (pre ++ f1 :: mid)).1 = none) :
+    writeArchive ⟨comment, (pre ++ f1 :: mid) ++ f2 :: post⟩ dir fs =
+      (some .exists, (writeFiles dir fs (pre ++ f1 :: mid)).2) ∧
+    (writeFiles dir fs (pre ++ f1 :: mid)).2.get (joinPath dir (cleanPath f1.name)) = some (.file f1.data) :=
+  writeFiles_duplicate dir fs pre mid post f1 f2 hsame hok
+
+-- "a/b" = [1], then "c", then "a//./b" = [2]
+example : (writeArchive ⟨[], [⟨[97, 47, 98], [49]⟩, ⟨[99], [51]⟩, ⟨[97, 47, 47, 46, 47, 98], [50]⟩]⟩ [[100]] []).1 = some .exists ∧
+    (writeArchive ⟨[], [⟨[97, 47, 98], [49]⟩, ⟨[99], [51]⟩, ⟨[97, 47, 47, 46, 47, 98], [50]⟩]⟩ [[100]] []).2.get [[100], [97], [98]] =
+      some (.file [49]) := by
+  have h := write_duplicate [] [] [⟨[99], [51]⟩] [] ⟨[97, 47, 98], [49]⟩ ⟨[97, 47, 47, 46, 47, 98], [50]⟩ [[100]] []
+    (by decide) (by decide)
+  refine ⟨by rw [show ([⟨[97, 47, 98], [49]⟩, ⟨[99], [51]⟩, ⟨[97, 47, 47, 46, 47, 98], [50]⟩] : List File) =
+      (([] : List File) ++ ⟨[97, 47, 98], [49]⟩ :: [⟨[99], [51]⟩]) ++ ⟨[97, 47, 47, 46, 47, 98], [50]⟩ :: [] from rfl, h.1], ?_⟩
+  rw [show ([⟨[97, 47, 98], [49]⟩, ⟨[99], [51]⟩, ⟨[97, 47, 47, 46, 47, 98], [50]⟩] : List File) =
+      (([] : List File) ++ ⟨[97, 47, 98], [49]⟩ :: [⟨[99], [51]⟩]) ++ ⟨[97, 47, 47, 46, 47, 98], [50]⟩ :: [] from rfl, h.1]
+  exact h.2
+
+/-- the dot rule in the statement's terms: a path is archived iff `-a` is given or none of its elements starts with '.'. -/
+theorem noDot_iff (o : SaveOpts) (p : List Bytes) :
+    NoDot o p ↔ (o.all = true ∨ ∀ c ∈ p, ¬ ([DOT] : Bytes) <+: c) := by
+  unfold NoDot
+  simp only [savedir_facts.1, Bool.and_eq_false_iff, Bool.not_eq_false']
+  constructor
+  · intro h
+    by_cases ha : o.all = true
+    · exact Or.inl ha
+    · right
+      intro c hc hpre
+      rcases h c hc with h1 | h1
+      · rw [← Bool.not_eq_true, List.isPrefixOf_iff_prefix] at h1; exact h1 hpre
+      · exact ha h1
+  · rintro (ha | h) c hc
+    · exact Or.inr ha
+    · left
+      rw [← Bool.not_eq_true, List.isPrefixOf_iff_prefix]
+      exact h c hc
+
+/-- **roundtrip_cases.**  The txtar-c → txtar-x round trip, case by case, for every `TreeOK` tree, both flags
+and every clear target: (1) a file that txtar-c does not archive — dot-prefixed element on its path without `-a`,
+invalid UTF-8, or a marker look-alike line without `-quote` — is not created by txtar-x, and this does not disturb
+the others; (2) every other valid-UTF-8 file without a marker line comes back at its path with exactly its content
+plus the final newline; (3) a marker look-alike file under `-quote` comes back as a file that `Unquote` maps to its
+content plus the final newline, and the archive comment names it in an `unquote <path>` line. -/
+theorem roundtrip_cases (o : SaveOpts) (t : Forest) (dir : Path) (fs : FS)
+    (hok : TreeOK o t) (hclear : Clear dir fs) :
+    ∃ (a : Archive) (fs' : FS),
+      saveDir o t = some a ∧ extract (format a) dir fs = some (none, fs') ∧
+      (∀ c cs d, t.find c cs = some (.file d) →
+        (¬ NoDot o (c :: cs) ∨ utf8Valid d = false ∨ (HasMarkerLine (fixNL d) ∧ o.quote = false)) →
+        ∀ x, fs'.get (dir ++ c :: cs) ≠ some (.file x)) ∧
+      (∀ c cs d, t.find c cs = some (.file d) → NoDot o (c :: cs) → utf8Valid d = true → ¬ HasMarkerLine (fixNL d) →
+        fs'.get (dir ++ c :: cs) = some (.file (fixNL d))) ∧
+      (∀ c cs d, t.find c cs = some (.file d) → NoDot o (c :: cs) → utf8Valid d = true → HasMarkerLine (fixNL d) →
+        o.quote = true →
+        ∃ x, fs'.get (dir ++ c :: cs) = some (.file x) ∧ unquote x = .ok (fixNL d) ∧
+          Gen.Fsx.unquotePrefix ++ joinSep (c :: cs) ++ [NL] <:+: a.comment) := by
+  obtain ⟨a, fs', hs, _, _, hx, hfwd, hback⟩ := savedir_extract_roundtrip o t dir fs hok hclear
+  refine ⟨a, fs', hs, hx, ?_, ?_, ?_⟩
+  · intro c cs d hfind hskip x hget
+    have hnone : fs.get (dir ++ c :: cs) = none :=
+      hclear.2 _ (List.prefix_append _ _) (by
+        intro he
+        have := congrArg List.length he
+        simp at this)
+    obtain ⟨c', cs', d', q, hp, hfind', hnd, hst⟩ := hback _ x hnone hget
+    have hp' := List.append_cancel_left hp
+    simp only [List.cons.injEq] at hp'
+    obtain ⟨hc, hcs⟩ := hp'
+    subst hc hcs
+    rw [hfind] at hfind'
+    simp only [Option.some.injEq, Tree.file.injEq] at hfind'
+    subst hfind'
+    rcases hskip with h | h | ⟨h1, h2⟩
+    · exact h hnd
+    · rw [(stored_spec o d).1 h] at hst; cases hst
+    · by_cases hu : utf8Valid d = true
+      · rw [(stored_spec o d).2.2.1 hu h1 h2] at hst; cases hst
+      · rw [(stored_spec o d).1 (by simpa using hu)] at hst; cases hst
+  · intro c cs d hfind hnd hu hm
+    exact (hfwd c cs d _ _ hfind hnd ((stored_spec o d).2.1 hu hm)).1
+  · intro c cs d hfind hnd hu hm hq
+    obtain ⟨x, hst, _, hun⟩ := (stored_spec o d).2.2.2 hu hm hq
+    obtain ⟨h1, h2⟩ := hfwd c cs d x true hfind hnd hst
+    exact ⟨x, h1, hun, h2 rfl⟩
+
+-- the example tree: without -a and without -quote the dot file and the marker look-alike are both skipped
+example : exTree.find [46, 104] [] = some (.file [104, 10]) ∧ ¬ NoDot ⟨false, false⟩ [[46, 104]] ∧
+    exTree.find [97] [] = some (.file [45, 45, 32, 120, 32, 45, 45, 10]) ∧
+    HasMarkerLine (fixNL [45, 45, 32, 120, 32, 45, 45, 10]) ∧ TreeOK ⟨false, false⟩ exTree := by
+  refine ⟨by simp [exTree, Forest.find, Tree.find], by unfold NoDot; decide +kernel,
+    by simp [exTree, Forest.find, Tree.find], by decide +kernel, by decide +kernel⟩
 
 end GIV.C15
